@@ -251,8 +251,14 @@ def c19_4(ctx, ss):
         # every resonance met while reading is recorded (these are the particles the _M / _W variables are declared for)
         fm, fmflow = fn(ss, "modeling/amplitudechain.py", "AmplitudeChain.from_matched_line")
         adds = [n for n in pf.walk_no_nested(fm.node) if isinstance(n, ast.AugAssign) and isinstance(n.target, ast.Attribute) and n.target.attr == "all_particles"]
-        oka = len(adds) == 1 and isinstance(adds[0].op, ast.BitOr) and txt(adds[0].value) in ("{mat['particle']}",) and \
-            [(txt(e), pol) for kind, e, pol in guards.path_conditions(fm.node, adds[0]) if kind == "if"] in ([], [("mat['particle'] in cls.all_particles", False)])
+        # the element added is the particle stored for this line (possibly through a local), guarded at most by "not yet recorded"
+        pst = [x for x in pf.iter_stmts(fm.node.body) if isinstance(x, ast.Assign) and txt(x.targets[0]) in ("mat['particle']",)]
+        pv_ = fmflow.text(pst[0].value) if len(pst) == 1 else None
+        added = fmflow.expand(adds[0].value) if len(adds) == 1 else None
+        el_ok = isinstance(added, ast.Set) and len(added.elts) == 1 and txt(added.elts[0]) in ("mat['particle']", pv_)
+        gconds = [(fmflow.text(e), pol) for kind, e, pol in guards.path_conditions(fm.node, adds[0]) if kind == "if"] if len(adds) == 1 else None
+        oka = len(adds) == 1 and isinstance(adds[0].op, ast.BitOr) and el_ok and \
+            gconds in ([], [("mat['particle'] in cls.all_particles", False)], [(f"{pv_} in cls.all_particles", False)])
         if cls_ == CH[0]:
             (ctx.holds if oka else ctx.violation)("C19.4", f"{GOOFIT}:all_particles :: recorded", where(fm, adds[0] if adds else fm.node),
                                                   "every particle of every line is added to all_particles" if oka else "not every particle met while reading is added to all_particles: its _M / _W variables are used but never declared")
